@@ -194,6 +194,16 @@ func c18Sweep(c *fw.Ctx) {
 			}
 		}
 	}
+	// a directive that fails after a wide one: nothing of that printf may have been written
+	for _, w := range []int{100, 5000, 8191, 8192, 8193, 9000, 16384, 40000, 65536} {
+		for _, tail := range []string{" tail %s", "%d", "%", "%5", "%f"} {
+			f := "head %" + strconv.Itoa(w) + "s" + tail
+			c.State("wide then failing")
+			c.Do(func() any { return c18Spec{f, 1} }, func() *fw.Violation { return c18Check(c, f, 1) })
+			g := "%-" + strconv.Itoa(w) + "v" + tail
+			c.Do(func() any { return c18Spec{g, 1} }, func() *fw.Violation { return c18Check(c, g, 1) })
+		}
+	}
 	// widths of 20 and more digits, and zero-padded width texts
 	for _, wt := range []string{"00000000000000000005", "99999999999999999999", "18446744073709551616", "9223372036854775808", "-9223372036854775809", "0000000000000000000000065536", "0000000000000000000000065537", "007", "-007"} {
 		for _, code := range []string{"s", "f", "v"} {
